@@ -95,7 +95,10 @@ static void bad(void) { fprintf(vp_out, "bad-op\n"); }
 /* ---------- attribute assignment ---------- */
 static bool set_iface_attr(vp_iface *it, const char *k, const char *v, bool creating) {
     uint64_t u; int64_t i; uint8_t *p; long n;
-    if (!strcmp(k, "mtu")) { if (!creating || !parse_u64(v, &u) || u < 64 || u > 65535) return false; it->mtu = (size_t)u; return true; }
+    if (!strcmp(k, "mtu")) {       /* after creation the MTU may change, up to the size of the receive buffer allocated at creation */
+        if (!parse_u64(v, &u) || u < 64 || u > 65535 || (!creating && u > it->bufsize)) return false;
+        it->mtu = (size_t)u; return true;
+    }
     if (!strcmp(k, "mac")) return parse_fixed(v, it->mac, 6);
     if (!strcmp(k, "flags")) { if (!parse_u64(v, &u) || u > 0xFFFFFFFFull) return false; it->flags = (uint32_t)u; return true; }
     if (!strcmp(k, "iftype")) { if (!parse_u64(v, &u) || u > 0xFFFFFFFFull) return false; it->iftype = (uint32_t)u; return true; }
@@ -224,6 +227,7 @@ static void run_line(char *line) {
         if (creating) {
             tmp.used = 1;
             tmp.recvbuf = malloc(tmp.mtu);            /* exactly MTU bytes, like fillInterfaceDetails */
+            tmp.bufsize = tmp.mtu;
             memset(tmp.recvbuf, (int)buf0, tmp.mtu);
         }
         *it = tmp;
@@ -247,7 +251,7 @@ static void run_line(char *line) {
         if (n < 0 || (size_t)n > it->mtu) { free(f); bad(); goto end; }
         bool zero = (nt > base + 1 && !strcmp(tok[base + 1], "zero"));
         memcpy(it->recvbuf, f, (size_t)n);                 /* recvfrom(sock, recvBuffer, MTU) */
-        if (zero) memset(it->recvbuf + n, 0, it->mtu - (size_t)n);
+        if (zero) memset(it->recvbuf + n, 0, it->bufsize - (size_t)n);
         free(f);
         if (lin) {                                          /* body of the Linux daemons' lltdLoop */
             lltd_demultiplex_header_t *h = (lltd_demultiplex_header_t *)it->recvbuf;
@@ -273,7 +277,7 @@ static void run_line(char *line) {
         for (unsigned i = 0; i < n; i++) {
             if (recs[i].iface == A && recs[i].len <= it->mtu) {
                 memcpy(it->recvbuf, recs[i].data, recs[i].len);
-                if (zero) memset(it->recvbuf + recs[i].len, 0, it->mtu - recs[i].len);
+                if (zero) memset(it->recvbuf + recs[i].len, 0, it->bufsize - recs[i].len);
                 fprintf(vp_out, "deliver %d ", Bi); vp_hex(vp_out, recs[i].data, recs[i].len); fputc('\n', vp_out);
                 parseFrame(it->recvbuf, it);
             }
